@@ -11,6 +11,7 @@ mod descr;
 mod engine;
 mod loader;
 mod operand;
+mod panics;
 mod reflect;
 mod spirv_enums;
 mod table;
@@ -66,6 +67,7 @@ fn main() {
     out.insert("builder".into(), builder::extract(&mut cx));
     out.insert("traverse".into(), traverse::extract(&mut cx));
     out.insert("loader".into(), loader::extract(&mut cx));
+    out.insert("panics".into(), panics::extract(&mut cx));
     out.insert("failures".into(), json!(cx.failures));
     let v = Value::Object(out);
     std::fs::write(&args[2], serde_json::to_string_pretty(&v).unwrap()).unwrap();
